@@ -637,17 +637,61 @@ func rulePeekUnread(c *Ctx, r *Report) {
 				}
 			}
 			uk := usesK(rt)
-			hit := instrReachAvoid(parse, func(in ssa.Instruction) bool {
+			// the end of file is delivered, not looked ahead at: paths under err == io.EOF need no un-read
+			isEOF := func(v ssa.Value) bool {
+				for _, l := range c.originSet(v) {
+					if u, ok := l.(*ssa.UnOp); ok && u.Op == token.MUL {
+						if g, ok := u.X.(*ssa.Global); ok && g.Pkg != nil && g.Pkg.Pkg.Path() == "io" && g.Name() == "EOF" {
+							return true
+						}
+					}
+				}
+				return false
+			}
+			hit := errStateReachX(parse, errOf(parse), func(in ssa.Instruction) bool {
 				_, isRet := in.(*ssa.Return)
 				return isRet || uk(in)
-			}, func(in ssa.Instruction) bool { return in == uns[0] })
+			}, func(in ssa.Instruction) bool { return in == uns[0] }, false, isEOF, false)
 			switch {
 			case !okStream:
 				r.bad(rule, key, c.at(uns[0]), desc, "the stream un-read is not the stream handed to the parser")
 			case hit != nil:
-				r.bad(rule, key, c.at(hit), desc, "a return or a use of the continuation is reachable from the parse without passing through the un-read")
+				r.bad(rule, key, c.at(hit), desc, "a return or a use of the continuation is reachable from the parse without passing through the un-read (on a path that is not under err == io.EOF, where the end is delivered)")
 			default:
 				r.ok(rule, key, c.at(uns[0]), desc, "one UnreadRune on the parsed stream, on every path from the parse to a return or a use of the continuation", true)
+			}
+			// (e) the delivered end of file is not given back (un-reading it would leave the stream at its end for
+			// ever: end_of_file again and again, the eof_action never applies)
+			notOnEOF := false
+			if ev := errOf(parse); ev != nil {
+				for f := range c.factsAt(uns[0].Block()) {
+					bo, ok := f.cond.(*ssa.BinOp)
+					if !ok || (bo.Op != token.EQL && bo.Op != token.NEQ) {
+						continue
+					}
+					var other ssa.Value
+					switch {
+					case bo.X == ev:
+						other = bo.Y
+					case bo.Y == ev:
+						other = bo.X
+					default:
+						continue
+					}
+					eq := (bo.Op == token.EQL) == f.pol
+					if k, isConst := other.(*ssa.Const); isConst && k.Value == nil && eq {
+						notOnEOF = true // err == nil
+					}
+					if isEOF(other) && !eq {
+						notOnEOF = true
+					}
+				}
+			}
+			descE := "read_term/3 does not give back the end of file it delivers"
+			if notOnEOF {
+				r.ok(rule, "read_term/3/eof-delivered", c.at(uns[0]), descE, "the un-read is reached only under err != io.EOF (or err == nil)", true)
+			} else {
+				r.bad(rule, "read_term/3/eof-delivered", c.at(uns[0]), descE, "the un-read also runs when the parse reported the end of file: un-reading the end leaves the stream at its end, so end_of_file is delivered again and again and the stream's eof_action never applies")
 			}
 		}
 	} else {
@@ -836,6 +880,12 @@ func ruleStreamTypeGuard(c *Ctx, r *Report) {
 // about errVal (nil / non-nil), and returns the first `target` instruction reached on a path on which
 // errVal is not known to be non-nil. Branches contradicting what the path already assumed are infeasible.
 func errStateReach(start ssa.Instruction, errVal ssa.Value, target, avoid func(ssa.Instruction) bool) ssa.Instruction {
+	return errStateReachX(start, errVal, target, avoid, true, nil, false)
+}
+
+// errStateReachX: exemptNonNil - a path on which errVal is known to be non-nil is exempt; exemptEq - a path
+// on which errVal is known to equal a value accepted by exemptEq is exempt.
+func errStateReachX(start ssa.Instruction, errVal ssa.Value, target, avoid func(ssa.Instruction) bool, exemptNonNil bool, exemptEq func(ssa.Value) bool, exemptNil bool) ssa.Instruction {
 	type st struct {
 		b     *ssa.BasicBlock
 		state int
@@ -849,7 +899,7 @@ func errStateReach(start ssa.Instruction, errVal ssa.Value, target, avoid func(s
 			if avoid(in) {
 				return
 			}
-			if target(in) && state != 2 {
+			if target(in) && state != 2 && !(exemptNil && state == 1) {
 				found = in
 				return
 			}
@@ -885,12 +935,16 @@ func errStateReach(start ssa.Instruction, errVal ssa.Value, target, avoid func(s
 						if state == 1 {
 							continue
 						}
-						ns = 2
+						if exemptNonNil {
+							ns = 2
+						}
 					case !isNil && eq:
 						if state == 1 {
 							continue
 						}
-						ns = 2
+						if exemptNonNil || (exemptEq != nil && exemptEq(other)) {
+							ns = 2
+						}
 					}
 				}
 			}
